@@ -14,7 +14,7 @@ DASTARD_COMMON = ["zz_verif_common_test.go"]
 PROPS = {
     "C20": {
         "pkg": ".", "hdir": "dastard", "harness": DASTARD_COMMON + ["zz_verif_trig_test.go", "zz_verif_c20_test.go"], "test": "TestVerifC20",
-        "quick": T(16, 90), "thorough": T(16, 900),
+        "quick": T(16, 150), "thorough": T(16, 900),
         "rule": "one execution = one history of write-control requests, state labels and data blocks (with external-trigger lists and drop counts) through the real "
                 "WriteControl / SetExperimentStateLabel / ProcessSegments, all side files decoded after every STOP and again at the end; "
                 "non-trivial = at least one run was started and at least one event was due to be logged",
@@ -22,7 +22,7 @@ PROPS = {
     },
     "C01": {
         "pkg": ".", "hdir": "dastard", "harness": DASTARD_COMMON + ["zz_verif_trig_test.go", "zz_verif_c01_test.go"], "test": "TestVerifC01",
-        "quick": T(16, 90), "thorough": T(16, 900),
+        "quick": T(16, 150), "thorough": T(16, 900),
         "rule": "one execution = one (geometry, signedness, trigger configuration, control history, pulse set, block partition) run through the real "
                 "PrepareRun/ChangeTriggerState/ProcessSegments; non-trivial = at least one emitted record spans a block boundary",
         "assumptions": ["decimation off", "structured streams (baseline + position-dependent ripple + 1-2 pulses), not all 2^16n value sequences",
@@ -30,14 +30,14 @@ PROPS = {
     },
     "C02": {
         "pkg": ".", "hdir": "dastard", "harness": DASTARD_COMMON + ["zz_verif_trig_test.go", "zz_verif_c02_test.go"], "test": "TestVerifC02",
-        "quick": T(16, 90), "thorough": T(16, 900),
+        "quick": T(16, 150), "thorough": T(16, 900),
         "rule": "as C01 without edge-multi; oracle = independent scan of the ground-truth stream with the edge/level/auto criteria; "
                 "non-trivial = a criterion sample lies within one record length of a block boundary",
         "assumptions": ["criteria as defined by the code (DESIGN 7.1), dead time inclusive", "completeness only demanded where decidable from delivered data (DESIGN 7.2)"],
     },
     "C06": {
         "pkg": ".", "hdir": "dastard", "harness": DASTARD_COMMON + ["zz_verif_files_test.go", "zz_verif_c06_test.go"], "test": "TestVerifC06",
-        "quick": T(16, 90), "thorough": T(16, 600),
+        "quick": T(16, 150), "thorough": T(16, 600),
         "rule": "BFS: every (canonical writing state, request) pair executed once through the real AnySource.WriteControl with a tagged record per channel "
                 "pushed through the real AnalyzeData/PublishData after each request and all files decoded after a final STOP; DFS: all request "
                 "sequences to the depth bound; non-trivial = at least one START succeeded",
@@ -47,14 +47,14 @@ PROPS = {
     # C08 is overridden by props.d/C08.py (this entry as part 0 + the race-probe part)
     "C08": {
         "pkg": ".", "hdir": "dastard", "harness": DASTARD_COMMON + ["zz_verif_trig_test.go", "zz_verif_c08_test.go"], "test": "TestVerifC08",
-        "quick": T(16, 90), "thorough": T(16, 900),
+        "quick": T(16, 150), "thorough": T(16, 900),
         "rule": "one execution = one (geometry, edge-multi configuration, edge set, block partition); differential oracle against the one-block run "
                 "of the same stream + ordering/extent rules + the C01 excerpt oracle; non-trivial = at least one record emitted and at least one cut",
         "assumptions": ["unsigned streams (edge-multi ignores signedness)", "staircase streams with sub-threshold ripple; 1-3 edges"],
     },
     "C09": {
         "pkg": ".", "hdir": "dastard", "harness": DASTARD_COMMON + ["zz_verif_trig_test.go", "zz_verif_c09_test.go"], "test": "TestVerifC09",
-        "quick": T(16, 90), "thorough": T(16, 600),
+        "quick": T(16, 150), "thorough": T(16, 600),
         "rule": "BFS: every (connection set, edit) pair executed once through the real ChangeGroupTrigger/StopTriggerCoupling/SetCoupling, followed by "
                 "9 data cycles through the real ProcessSegments (every subset of channels firing, and two sources firing on one frame); "
                 "DFS: all edit sequences to the depth bound with cycles after every edit; non-trivial = at least one secondary record was emitted",
@@ -62,7 +62,7 @@ PROPS = {
     },
     "C12": {
         "pkg": ".", "hdir": "dastard", "harness": DASTARD_COMMON + ["zz_verif_c12_test.go"], "test": "TestVerifC12",
-        "quick": T(16, 60), "thorough": T(16, 600),
+        "quick": T(16, 150), "thorough": T(16, 600),
         "rule": "one execution = one (option set, raw sequence) run unsplit and under every split into calls on the real PhaseUnwrapper; "
                 "oracle = integer arithmetic of the property (modulo-quantum, step window, reset timing, split invariance); "
                 "non-trivial = the output left the home offset at least once (a wrap was removed)",
@@ -77,7 +77,7 @@ PROPS = {
     },
     "C18": {
         "pkg": "ringbuffer", "hdir": "ringbuffer", "harness": ["zz_verif_c18_test.go"], "test": "TestVerifC18",
-        "quick": T(16, 60), "thorough": T(16, 600),
+        "quick": T(16, 150), "thorough": T(16, 600),
         "rule": "BFS: every (canonical state, op) pair of the ring buffer executed once on the real RingBuffer "
                 "(state = read/write positions mod lcm(cap,12) and fill level); DFS: every op sequence to the depth bound, "
                 "un-merged. Non-trivial = the execution wrapped around the end of the buffer (BFS) / wrapped and was exactly full (DFS).",
